@@ -216,7 +216,7 @@ func (g *c14Gen) object() map[string]interface{} {
 	keys := []string{"a", "b", "c", "k", "v", "b c", "and", "x1"}
 	m := map[string]interface{}{}
 	for i := 0; i < n; i++ {
-		m[keys[r.Intn(len(keys))]] = []interface{}{1.0, 2.0, "s", true, A{1.0, 2.0}, O{"z": 1.0}, A{}, "", 0.0}[r.Intn(9)]
+		m[keys[r.Intn(len(keys))]] = []interface{}{1.0, 2.0, "s", true, A{1.0, 2.0}, O{"z": 1.0}, A{}, "", 0.0, O{"y": 2.0}, O{"z": 3.0, "w": O{"q": 1.0}}, O{"w": O{"r": 2.0}}, A{O{"z": 1.0}}}[r.Intn(13)]
 	}
 	return m
 }
